@@ -11,6 +11,9 @@
   (`data[tag.Offset:end]`), and it allocates `Entries*16` (wrapped to uint32) and `Size` bytes before reading them.
   `SignRpmStream` computes NO digest tag: SIG_SHA1 / SIG_SHA256 / SIG_MD5 / SIG_SIZE stay as found; it inserts
   SIG_PGP (1002, header+payload) and SIG_RSA (268, header only) and deletes SIG_GPG (1005) and SIG_DSA (267).
+  Since f356386 (fix of F-RPM-1..3) `sign` and `verify` run under `defer guard(&err)`: a panic of the parser becomes the error
+  "malformed RPM" (`recovered`), and `nevra()` returns "" when `GetNEVRA` fails (`nevraOf`); the code before is kept as
+  `signOrig` / `verifyOrig` / `verifyCoreOrig` / `nevraOrig`.
   Parameters: `H alg stream` = lower-case hex digest (alg: OpenPGP ids 1 md5, 2 sha1, 8 sha256, 9 sha384, 10 sha512,
   11 sha224); `mk headerOnly stream` = the OpenPGP signature packet made over a stream; `pgp blob` = what
   `parseSignature` makes of a blob (key id, hash); `valid blob stream` = the packet verifies over the stream under the key
@@ -322,19 +325,17 @@ def strip0 : Bytes → Bytes
   | 45 :: 48 :: 58 :: r => 45 :: strip0 r
   | c :: r => c :: strip0 r
 
-/-- `GetNEVRA` + `nevra()`: any error leaves a nil `*NEVRA` whose `String()` dereferences it -/
-def nevraOf (gen : EMap) : Res Bytes :=
+/-- `GetNEVRA` and the formatting of `nevra()`: `.err` = GetNEVRA returns (nil, err) -/
+def getNevra (gen : EMap) : Res Bytes :=
   let gs (t : Int) : Res (List Bytes) :=
-    match getStrings gen t with
-    | .err _ => .panic "nil:nevra"
-    | r => r
+    getStrings gen t
   match gs tagName with
   | .ok name =>
     let epoch : Res Nat :=
       match get tagEpoch gen with
       | none => .ok 0
       | some e =>
-        if e.typ = 1 ∨ e.typ = 2 ∨ e.typ = 3 ∨ e.typ = 4 ∨ e.typ = 5 then .ok ((firstInt e).getD 0) else .panic "nil:nevra"
+        if e.typ = 1 ∨ e.typ = 2 ∨ e.typ = 3 ∨ e.typ = 4 ∨ e.typ = 5 then .ok ((firstInt e).getD 0) else .err "nevra"
     match epoch with
     | .ok ep =>
       match gs tagVersion with
@@ -352,6 +353,24 @@ def nevraOf (gen : EMap) : Res Bytes :=
       | .err x => .err x | .panic s => .panic s | .diverge => .diverge
     | .err x => .err x | .panic s => .panic s | .diverge => .diverge
   | .err x => .err x | .panic s => .panic s | .diverge => .diverge
+
+/-- `nevra()` before f356386: the error of `GetNEVRA` was ignored and `String()` called on the nil `*NEVRA` -/
+def nevraOrig (gen : EMap) : Res Bytes :=
+  match getNevra gen with
+  | .err _ => .panic "nil:nevra"
+  | r => r
+
+/-- `nevra()` (current code): "" when `GetNEVRA` fails; a panic inside `GetNEVRA` (count 0 / negative count) still unwinds —
+    to the `guard` of `sign` / `verify` -/
+def nevraOf (gen : EMap) : Res Bytes :=
+  match getNevra gen with
+  | .err _ => .ok []
+  | r => r
+
+/-- `defer guard(&err)`: a panic below `sign` / `verify` becomes the error "malformed RPM: …" -/
+def recovered {α : Type} : Res α → Res α
+  | .panic _ => .err "malformed"
+  | r => r
 
 /-! ### reading the two headers (shared by sign and verify) -/
 
@@ -406,9 +425,9 @@ def insertSigs (m : EMap) (sigPgp sigRsa : Bytes) : EMap :=
 def signedSig (mk : Bool → Bytes → Bytes) (p : Parsed) : Hdr :=
   ⟨insertSigs p.sig.ents (mk false (p.gen.orig ++ p.payload)) (mk true p.gen.orig), p.sig.orig⟩
 
-/-- signer.go `sign`: SignRpmStream → DumpSignatureHeader(true) → one patch over `[0, OriginalSignatureHeaderSize)` →
+/-- signer.go `sign` below the guard, `nv` = `nevra()`: SignRpmStream → DumpSignatureHeader(true) → one patch over `[0, OriginalSignatureHeaderSize)` →
     audit attributes -/
-def sign (H : Nat → Bytes → Bytes) (mk : Bool → Bytes → Bytes) (f : Bytes) : Res SignOut :=
+def signWith (nv : EMap → Res Bytes) (H : Nat → Bytes → Bytes) (mk : Bool → Bytes → Bytes) (f : Bytes) : Res SignOut :=
   match readBoth H f with
   | .ok p =>
     match digestPayload H p.sig.ents p.gen p.payload with
@@ -425,12 +444,20 @@ def sign (H : Nat → Bytes → Bytes) (mk : Bool → Bytes → Bytes) (f : Byte
               | .panic s => .panic s
               | _ => .ok []) with
       | .ok sha1 =>
-        match nevraOf p.gen.ents with
+        match nv p.gen.ents with
         | .ok nv => .ok ⟨sigAreaLen p, blob, nv, md5, sha1⟩
         | .err x => .err x | .panic s => .panic s | .diverge => .diverge
       | .err x => .err x | .panic s => .panic s | .diverge => .diverge
     | .err x => .err x | .panic s => .panic s | .diverge => .diverge
   | .err x => .err x | .panic s => .panic s | .diverge => .diverge
+
+/-- signer.go `sign` (current code, f356386): guarded, `nevra()` tolerant -/
+def sign (H : Nat → Bytes → Bytes) (mk : Bool → Bytes → Bytes) (f : Bytes) : Res SignOut :=
+  recovered (signWith nevraOf H mk f)
+
+/-- signer.go `sign` before f356386 -/
+def signOrig (H : Nat → Bytes → Bytes) (mk : Bool → Bytes → Bytes) (f : Bytes) : Res SignOut :=
+  signWith nevraOrig H mk f
 
 /-- patch application (`binpatch.Apply` through the C12 model) -/
 def applyPatch (f : Bytes) (o : SignOut) : Res Bytes :=
@@ -506,27 +533,42 @@ def libVerifyCore (H : Nat → Bytes → Bytes) (pgp : Bytes → Res SigInfo) (v
     | .err x => .err x | .panic s => .panic s | .diverge => .diverge
   | .err x => .err x | .panic s => .panic s | .diverge => .diverge
 
-/-- signer.go `verify` behind `readBoth`: the lead plays no part -/
-def verifyCore (H : Nat → Bytes → Bytes) (pgp : Bytes → Res SigInfo) (valid : Bytes → Bytes → Bool) (known : Option (List Nat))
-    (noChain : Bool) (sig gen : Hdr) (payload : Bytes) : Res VerifyOut :=
+/-- signer.go `verify` behind `readBoth`: the lead plays no part; `nv` = `nevra()` -/
+def verifyCoreWith (nv : EMap → Res Bytes) (H : Nat → Bytes → Bytes) (pgp : Bytes → Res SigInfo) (valid : Bytes → Bytes → Bool)
+    (known : Option (List Nat)) (noChain : Bool) (sig gen : Hdr) (payload : Bytes) : Res VerifyOut :=
   match libVerifyCore H pgp valid known sig gen payload with
   | .ok sigs =>
     if sigs = [] then .err "notsigned"
     else
       -- `Package: nevra(header)` is evaluated for the first signature before anything else
-      match nevraOf gen.ents with
+      match nv gen.ents with
       | .ok nv =>
         if known = none ∧ !noChain then .err "nokeychain"
         else .ok ⟨(dedupe sigs []).map fun s => (s.info.keyid, s.info.hash), nv⟩
       | .err x => .err x | .panic s => .panic s | .diverge => .diverge
   | .err x => .err x | .panic s => .panic s | .diverge => .diverge
 
-/-- signer.go `verify` -/
+/-- current code, below the guard -/
+def verifyCore := verifyCoreWith nevraOf
+/-- before f356386 -/
+def verifyCoreOrig := verifyCoreWith nevraOrig
+
+/-- `verify` without the guard -/
+def verifyWith (nv : EMap → Res Bytes) (H : Nat → Bytes → Bytes) (pgp : Bytes → Res SigInfo) (valid : Bytes → Bytes → Bool)
+    (known : Option (List Nat)) (noChain : Bool) (f : Bytes) : Res VerifyOut :=
+  match readBoth H f with
+  | .ok p => verifyCoreWith nv H pgp valid known noChain p.sig p.gen p.payload
+  | .err x => .err x | .panic s => .panic s | .diverge => .diverge
+
+/-- signer.go `verify` (current code, f356386) -/
 def verify (H : Nat → Bytes → Bytes) (pgp : Bytes → Res SigInfo) (valid : Bytes → Bytes → Bool) (known : Option (List Nat))
     (noChain : Bool) (f : Bytes) : Res VerifyOut :=
-  match readBoth H f with
-  | .ok p => verifyCore H pgp valid known noChain p.sig p.gen p.payload
-  | .err x => .err x | .panic s => .panic s | .diverge => .diverge
+  recovered (verifyWith nevraOf H pgp valid known noChain f)
+
+/-- signer.go `verify` before f356386 -/
+def verifyOrig (H : Nat → Bytes → Bytes) (pgp : Bytes → Res SigInfo) (valid : Bytes → Bytes → Bool) (known : Option (List Nat))
+    (noChain : Bool) (f : Bytes) : Res VerifyOut :=
+  verifyWith nevraOrig H pgp valid known noChain f
 
 def verifyOk (H : Nat → Bytes → Bytes) (pgp : Bytes → Res SigInfo) (valid : Bytes → Bytes → Bool) (known : Option (List Nat))
     (f : Bytes) : Bool :=
